@@ -102,7 +102,7 @@ func XCheck(cases []XCase) ([]bool, error) {
 			s *jsonv.Value
 			m uintptr
 		}
-		ids := map[key]string{}     // identical pointers: same schema
+		ids := map[key]string{}       // identical pointers: same schema
 		byText := map[string]string{} // identical text: same schema
 		var buf []byte
 		for i, c := range cases {
